@@ -492,6 +492,11 @@ impl GremlinTranslator {
                 Ok((plan, None))
             }
             ast::Step::HasLabel(labels) => {
+                if labels.is_empty() {
+                    return Err(Error::Internal(
+                        "hasLabel() requires at least one label".to_string(),
+                    ));
+                }
                 // Labels(var) returns a list of labels, so we need to check if the
                 // target label is IN that list, not if the list equals the label
                 let predicate = if labels.len() == 1 {
